@@ -253,6 +253,12 @@ func TestProp(t *testing.T) {
 			prog, _ = gen.PrintNoisy(g.Program(), z)
 		}
 		tail, tclass := g.Tail()
+		// leading blanks / a leading comment line are legal and belong to the consumed text
+		lead := rapid.SampledFrom([]string{"", "", "", "", " ", "\n", "\t ", " \n ", "// 备注 comment\n", "  // x\n  "}).Draw(t, "lead")
+		if strings.HasPrefix(prog, "^st") {
+			lead = ""
+		}
+		prog = lead + prog
 		c.Prog, c.Tail = prog, tail
 		c.Src = prog + tail
 		s.Eval()
